@@ -58,6 +58,27 @@ def run(ctx):
         ctx.violation("gate table row on the real nsqadmin: " + v["what"] + " -- request " + json.dumps(v["row"]["req"]) +
                       " config " + json.dumps(v["row"]["cfg"]),
                       ctx.save_replay("gate-" + v["key"], v), key=v["key"])
+    # 2b. the state-changing rows once more over names that end in #ephemeral (valid names; the '#' must survive the trip
+    #     to every nsqd and nsqlookupd)
+    if not ctx.replay:
+        rep2 = os.path.join(ctx.scratch, "gate-report-eph.json")
+        rc, out, err = ctx.run_harness(["gate-replay", "--tlc-out", tlc_out, "--report", rep2, "--parallel", 8,
+                                        "--name-suffix", "#ephemeral", "--mut-only"], timeout=3000, name="admin")
+        if rc == 2 or not os.path.exists(rep2):
+            raise Inconclusive("gate-replay (#ephemeral names): " + out[-2000:] + err[-4000:])
+        R2 = json.load(open(rep2))
+        if R2.get("error"):
+            raise Inconclusive("gate-replay (#ephemeral names): " + R2["error"])
+        ctx.cov["evaluations"] += R2["executed"]
+        ctx.notes["gate_table_ephemeral_names"] = {"rows": R2["rows"], "answers": R2["by_status"]}
+        for v in R2["violations"] or []:
+            key = "ephemeral-names:" + v["key"]
+            if key in seen:
+                continue
+            seen.add(key)
+            ctx.violation("gate table row on the real nsqadmin, topic and channel names ending in #ephemeral: " + v["what"] +
+                          " -- request " + json.dumps(v["row"]["req"]) + " config " + json.dumps(v["row"]["cfg"]),
+                          ctx.save_replay("gate-eph-" + v["key"], v), key=key)
     if R["drift_count"]:
         d = R["drift"][0]
         ctx.drift("%d rows of the gate table differ from the real nsqadmin without breaking C17, e.g. %s: %s (request %s)" % (
